@@ -4,6 +4,10 @@ package main
 // only in what the property says must not matter, and the consensus transcripts are compared.
 
 import (
+	"time"
+	"github.com/Oneledger/protocol/data/balance"
+	"github.com/Oneledger/protocol/data/governance"
+	"github.com/Oneledger/protocol/consensus"
 	"encoding/json"
 	"flag"
 	"fmt"
@@ -28,6 +32,7 @@ type Variant struct {
 	NodeSeed   byte
 	Rotation   config.ChainStateRotationCfg
 	NoIndex    bool                                 // C01: a node run with Tendermint's "null" transaction indexer
+	TZ         int                                  // C01: the host's time zone as seconds east of UTC (0 = leave as is)
 	SkipFailed map[[2]int]bool                      // C06: (block, tx index) to leave out
 	Checks     func(r *Replica, block int, pos int) // C07: called at every call boundary (pos: -1 before BeginBlock, k after k-th item, 1000 after EndBlock, 1001 after Commit)
 	CrashAt    map[[2]int]bool                      // C08: crash at boundary (block, pos) (pos as above; pos 1001 = after commit)
@@ -109,6 +114,13 @@ func runVariant(w *World, gen *GenesisSpec, h *History, v *Variant, dumpHeights 
 	if v.NodeVal != nil {
 		nodeVal = *v.NodeVal
 	}
+	if v.TZ != 0 {
+		// a host in another time zone: whatever is derived from time.Local (a time.Time rebuilt with time.Unix, a
+		// formatted date) must not reach state or results
+		old := time.Local
+		time.Local = time.FixedZone("verif-zone", v.TZ)
+		defer func() { time.Local = old }()
+	}
 	rep := NewReplica(gen, ReplicaOpts{NodeVal: nodeVal, NodeSeed: v.NodeSeed, Rotation: v.Rotation, NoIndex: v.NoIndex})
 	tr = &Transcript{Dumps: map[int64]map[string]string{}}
 	defer func() {
@@ -164,7 +176,7 @@ func runVariant(w *World, gen *GenesisSpec, h *History, v *Variant, dumpHeights 
 			return false
 		}
 		check(bi, -1)
-		bin := BlockIn{Txs: txs, Absent: in.Absent, Byzantine: in.Byzantine}
+		bin := BlockIn{Txs: txs, Absent: in.Absent, Byzantine: in.Byzantine, DT: in.DT}
 		rep.BeginBlock(&bin)
 		check(bi, 0)
 		if crashed(0) {
@@ -388,6 +400,18 @@ func genesisVariant(w *World, name string) *GenesisSpec {
 		g.Customize = customizeMature(w)
 	case "pending": // pending network undelegations loaded at genesis
 		g.Customize = customizePending(w)
+	case "prodgov": // production-range proposal and staking options: configuration updates of the staking options validate
+		g.Customize = func(st *consensus.AppState) {
+			d := governance.ProposalFundDistribution{Validators: 18, FeePool: 18, Burn: 18, ExecutionCost: 18, BountyPool: 10, ProposerReward: 18}
+			mk := func(fdl, vdl int64, pass int) governance.ProposalOption {
+				return governance.ProposalOption{InitialFunding: amt("1000000000"), FundingGoal: amt("10000000000"), FundingDeadline: fdl, VotingDeadline: vdl,
+					PassPercentage: pass, PassedFundDistribution: d, FailedFundDistribution: d, ProposalExecutionCost: "executionCost"}
+			}
+			st.Governance.PropOptions = governance.ProposalOptionSet{ConfigUpdate: mk(10000, 10000, 51), CodeChange: mk(10000, 150000, 60), General: mk(75000, 75000, 67), BountyProgramAddr: "oneledgerBountyProgram"}
+			st.Governance.StakingOptions.MaturityTime = 109200
+			st.Governance.StakingOptions.MinSelfDelegationAmount = *balance.NewAmount(500000)
+			st.Governance.StakingOptions.TopValidatorCount = 8
+		}
 	case "eth": // Ethereum chain driver + the genesis validators as witnesses (scenario ethlock)
 		g.Customize = customizeEth(w)
 		for _, v := range w.Vals {
@@ -539,6 +563,11 @@ func c07DirectedProbes(w *World) [][]byte {
 		}
 		out = append(out, mkTx(action.PROPOSAL_FINALIZE, govact.FinalizeProposal{ProposalID: propID(id), ValidatorAddress: w.Users[3].Addr}, GAS, memo(), w.Users[3]))
 		out = append(out, txExpireVotes(w.Users[3], id, memo()))
+	}
+	// the release of every validator (refused unless it is frozen and its release time has come): a release that
+	// is only checked must not count in any election
+	for _, v := range w.Vals {
+		out = append(out, txRelease(v, memo()))
 	}
 	return out
 }
@@ -739,6 +768,9 @@ func buildVariants(mode string, w *World, h *History, base *Transcript, r *rand.
 			// a node configured with Tendermint's "null" transaction indexer (a supported setting): whether a
 			// transaction was executed before is asked of that node-local index
 			{Name: "tx-index-off", NoIndex: true},
+			// hosts in other time zones (containers and one-machine devnets all share one)
+			{Name: "host-utc+5:30", TZ: 19800},
+			{Name: "host-utc-8", TZ: -28800},
 		}
 	}
 	panic("bad mode")
